@@ -104,5 +104,20 @@ impl<K> HashSet<K> {
     pub fn remove(&mut self, k: &K) -> (r: bool)
         ensures final(self)@ == old(self)@.remove(*k), r == old(self)@.contains(*k),
     { unimplemented!() }
+    // `set.drain()` consumed by a `for` loop or by `extend`: every element once, in some order; the set is left empty
+    #[verifier::external_body]
+    pub fn drain(&mut self) -> (r: Vec<K>)
+        ensures
+            final(self)@ =~= Set::<K>::empty(),
+            forall|x: K| #[trigger] old(self)@.contains(x) ==> r@.contains(x),
+            forall|j: int| 0 <= j < r@.len() ==> old(self)@.contains(#[trigger] r@[j]),
+    { unimplemented!() }
+    #[verifier::external_body]
+    pub fn extend(&mut self, v: Vec<K>)
+        ensures
+            forall|x: K| #[trigger] old(self)@.contains(x) ==> final(self)@.contains(x),
+            forall|j: int| 0 <= j < v@.len() ==> final(self)@.contains(#[trigger] v@[j]),
+            forall|x: K| #[trigger] final(self)@.contains(x) ==> old(self)@.contains(x) || v@.contains(x),
+    { unimplemented!() }
 }
 
